@@ -21,8 +21,8 @@ record only on the Some edge of comm_window(), and the periodic check_timeouts r
 (f) session_timeout writers confined; (g) results of verify / is_valid_pubkey / setup_verifier never dropped.
 """
 CLAUSES = ['a: session only after cA verified (constant-time)', 'b: prover share validated before use',
-           'c: window re-checked at PBKDFParamRequest and Pake1; the expiry verdict depends on the window alone', 'd: every failed proof counted, revoke at 20',
-           'e: advertised iff window open (structure)', 'f: single handshake marker writers; the slot is taken over only by its owner', 'g: results not dropped']
+           'c: window re-checked at PBKDFParamRequest and Pake1; the expiry verdict depends on the window alone', 'd: every failed proof counted, revoke at 20; no uncounted ending once Pake2 is out',
+           'e: advertised iff window open (structure); the emission depends on the window alone', 'f: single handshake marker writers; the slot is taken over only by its owner', 'g: results not dropped']
 NOT_DECIDED = ['SPAKE2+ mathematics and transcript binding', 'expiry polling period timing', 'interleavings with a concurrent second initiator']
 MIN_OBLIGATIONS = {'q': 30, 'd': 30, 'r': 30}
 
